@@ -99,7 +99,7 @@ def run(ctx):
                     rp.update(observed=f"validate(S % v, fake(S % v)) raised {type(e).__name__}: {e}",
                               expected="a usable schema")
                     ctx.violation("substitution returned a schema on which validation raises", rp)
-        elif ssuite.hereditarily_generable(ctx, c.schema):
+        if ssuite.hereditarily_generable(ctx, c.schema):
             usable_checked += 1
             for good, g, used in ssuite.gen_values(ctx, c.result):
                 if not good:
@@ -123,10 +123,18 @@ def run(ctx):
             idem_checked += 1
             try:
                 again = substitute(c.result, v)
-                same = (again == c.result) and repr(again) == repr(c.result)
+                same = (again == c.result)
                 why = "different schema" if not same else ""
             except Exception as e:  # noqa
-                same, why = False, f"{type(e).__name__}: {e}"
+                again, same, why = None, False, f"{type(e).__name__}: {e}"
+            if same:
+                try:
+                    same = repr(again) == repr(c.result)
+                    why = "different printed form" if not same else ""
+                except ValueError:
+                    # repr() of a schema holding an int beyond CPython's int->str limit raises (as
+                    # repr([10**5000]) does): not a statement about substitution
+                    pass
             if not same:
                 ex = f"S={c.ssrc}, v={c.vsrc()}"
                 if nan and ctx.known_finding("F10", ex):
@@ -148,7 +156,7 @@ def run(ctx):
     for i in bad[:10]:
         c = modelled[i]
         rp = c.replay_dict()
-        rp.update(observed=c.outcome + (": " + repr(c.result).replace("\n", " ")[:300] if c.result is not None else ""),
+        rp.update(observed=c.outcome + (": " + common.srepr(c.result).replace("\n", " ")[:300] if c.result is not None else ""),
                   expected="the model's substitute outcome (theorems subst_only_substerr / subst_idempotent are about it)",
                   theorem_or_suite="C12 correspondence: substitute")
         ctx.violation("substitute outcome differs from the model's", rp, failing_input=False)
